@@ -63,23 +63,6 @@ theorem C38_restore_raw (s : Shard) (hs : s.Inv) (k : Key) (t : TS) :
   rw [this]
   simp [filesLookup_map_strip]
 
-theorem flush_abs_files (s : Shard) (k : Key) (t : TS) :
-    s.flush.abs k t = filesLookup s.flush.files k t := by
-  unfold Shard.flush
-  split
-  · next h => simp at h; simp [Shard.abs, h, cacheLookup]
-  · simp [Shard.abs, cacheLookup]
-
-theorem flush_no_tombs (s : Shard) (h : ∀ f ∈ s.files, f.tombs = []) : ∀ f ∈ s.flush.files, f.tombs = [] := by
-  unfold Shard.flush
-  split
-  · exact h
-  · intro f hf
-    simp only [List.mem_append, List.mem_singleton] at hf
-    rcases hf with hf | rfl
-    · exact h f hf
-    · rfl
-
 /-- **C38, restore clause, partial**: a shard without tombstone records is
     restored to the same readable content.  (Missing for the full statement:
     shards that have tombstones — there the statement is false, `C38_full_fails`.) -/
@@ -198,7 +181,7 @@ theorem export_no_tombs (s : Shard) (hs : s.Inv) (a e : TS) (ar : Archive)
     (h : (s.export a e).2 = .ok ar) : ∀ f ∈ s.flush.files, f.tombs = [] := by
   intro f hf
   have := (exportEntries_ok h).2.1 f hf
-  exact ((Shard.Inv_flush s hs).wf f hf).2 this
+  exact ((Shard.Inv_flush s hs).wf f hf).2.1 this
 
 /-- **C38, export clause, lower half**: when Export succeeds, every source point
     inside [a,e] is in the export with the same value (and no other value is read
